@@ -728,3 +728,18 @@ func (c *Ctx) mergePartial(path string) {
 		c.mu.Unlock()
 	}
 }
+
+// Stable detects results that alias a shared scratch buffer: Next(b) reports
+// whether the slice handed in by the previous call still has the content it
+// had then, and remembers b (and a private copy of it) for the next call.
+type Stable struct {
+	prev, copyOf []byte
+}
+
+func (s *Stable) Next(b []byte) (intact bool, was, now []byte) {
+	intact = string(s.prev) == string(s.copyOf)
+	was, now = s.copyOf, s.prev
+	s.prev = b
+	s.copyOf = append([]byte(nil), b...)
+	return
+}
